@@ -9,6 +9,7 @@ is removed, and a peer that never fails is never removed. Request/reply half: se
 import SeliumModel.Lemmas.PubSubHealthy
 import SeliumModel.Lemmas.ReqRepMore
 import SeliumModel.Lemmas.ReqRepCause
+import SeliumModel.Lemmas.ReqRepQuietDrop
 
 namespace Selium.Route
 open Selium.Sink
@@ -110,6 +111,21 @@ theorem c08_requestor_dropped_only_when_its_own_sink_failed (history : List REve
     (h : REv.c (.dropped k) ∈ (rrExec history).trace) : ∃ e ∈ (rrExec history).trace, causeOfC k e :=
   rrExec_justifiedC history k h
 
+/-- "A failed replier is simply unbound": once the router has let go of a replier socket — it failed, it left, it was turned
+    away — nothing in the rest of the child-call trace concerns that socket: no readiness, send, flush or close is asked of
+    it, nothing is read from its stream, for every history and every behaviour of every peer. Nobody waits behind a peer
+    that has failed (a close of it that would never complete is never started). -/
+theorem c08_dropped_replier_is_never_called_again (history : List REvent) (pre post : List REv) (n k : Nat)
+    (h : (rrExec history).trace = pre ++ REv.v n (.dropped k) :: post) : ∀ e ∈ post, ∀ x, e ≠ REv.v n x :=
+  nothing_after_the_drop history pre post n k h
+
+/-- … and the drop follows the failure at once: in block A a readiness error of the bound replier's sink is the event right
+    before its `dropped` -/
+example (s : RR) (f : RFrame) (r : Replier) (hf : s.bufReq = some f) (hr : s.server = some r) (he : r.sink.readyAns = .err) :
+    (partA s).state.trace = s.trace ++ [.v r.n (.ready r.n .err), .v r.n (.dropped r.n)] := by
+  unfold partA
+  simp [hf, hr, he, unbind, log, Flow.state]
+
 /-- drops do happen: a replier whose stream ends is let go, and so is a requestor whose sink fails at the flush -/
 def exDrops : List REvent :=
   [.enqueue (.server { id := 0 } []), .enqueue (.client { id := 0, flushQ := [.err] } [.pending]), .poll 50 [] [], .poll 50 [] []]
@@ -119,6 +135,7 @@ example : ((rrExec exDrops).trace.any fun e => match e with | .v 0 (.dropped 0) 
 
 end Selium.Route
 
+#print axioms Selium.Route.c08_dropped_replier_is_never_called_again
 #print axioms Selium.Route.c08_replier_dropped_only_for_cause
 #print axioms Selium.Route.c08_requestor_dropped_only_when_its_own_sink_failed
 #print axioms Selium.Route.c08_fanout_poll_keeps_only_old
